@@ -144,6 +144,11 @@ func (a *TunnelActor) Act(e *Env) {
 			}
 		}
 		amt, aim := a.amountAround(e, target, "tunnel.wd")
+		if d, found := tk.GetDeposit(ctx, id, u.Addr); found && len(d.Amount) >= 2 && e.Ch.Bool("tunnel.wd.onedenom", 300) {
+			// of a deposit in several denoms, one denom in full and nothing of the others
+			c := d.Amount[e.Ch.Intn("tunnel.wd.onedenom.which", len(d.Amount))]
+			amt, aim = sdk.NewCoins(c), "one_denom_in_full"
+		}
 		msg := tunneltypes.NewMsgWithdrawFromTunnel(id, amt, u.Addr.String())
 		e.Submit(u, "tunnel_withdraw", &tunnelMeta{Kind: "withdraw", Actor: u, TunnelID: id, Amount: amt, Aim: aim}, msg)
 	case 3:
